@@ -604,6 +604,9 @@ func (r *runner) step(op string) string {
 			r.fail("update-accepted-invalid", fmt.Sprintf("size %d positions %v data %d", len(r.hashes), poss, len(upd)))
 		}
 		return "ok " + r.triple()
+	case "vcraft", "ucraft", "updidx":
+		// crafted index lists (crafted.go)
+		return r.crafted(w)
 	case "witness":
 		i, _ := strconv.Atoi(w[1])
 		wit, err := r.tr.GenerateRightWitness(uint64(i))
@@ -781,12 +784,26 @@ func (prop) Classify(c corr.Case, out []string) string {
 			if strings.HasPrefix(out[i], "w=") && !strings.HasPrefix(out[i], "w=- ") && size > 2 {
 				kinds["witness"] = true
 			}
+		case "vcraft":
+			if size > 2 && out[i] == "true" {
+				kinds["crafted-accepted"] = true
+			}
+			if size > 2 && out[i] == "false" {
+				kinds["crafted-rejected"] = true
+			}
+		case "ucraft", "updidx":
+			if size > 1 && out[i] == "err" {
+				kinds["crafted-rejected"] = true
+			}
+			if size > 1 && out[i] != "err" && out[i] != "noproof" {
+				kinds["update"] = true
+			}
 		}
 	}
 	if len(kinds) == 0 {
 		return ""
 	}
-	order := []string{"append", "predict", "reload", "proof", "tamper", "update", "witness"}
+	order := []string{"append", "predict", "reload", "proof", "tamper", "update", "witness", "crafted-accepted", "crafted-rejected"}
 	ks := []string{}
 	for _, k := range order {
 		if kinds[k] {
